@@ -404,7 +404,26 @@ def run_reader_op(tree, op, sched: Scheduler, tmpdir):
     raise ValueError(op)
 
 
-def build_tree(typed=False):
+class SharedLockTree(Tree):
+    """a user's subclass that guards `with tree:` with a lock of its own (e.g. one lock for a whole forest): the
+    snapshot operations promise to honour `with tree:`, whatever lock that is"""
+    _forest_lock = None
+
+    def __enter__(self):
+        self._forest_lock.acquire()
+        return self
+
+    def __exit__(self, *a):
+        self._forest_lock.release()
+
+
+def build_tree(typed=False, shared=False):
+    if shared:
+        tree = SharedLockTree("locked")
+        for n in BASE:
+            tree.add(n, data_id="id_" + n)
+        tree.children[0].add("xc", data_id="id_xc")
+        return tree
     if typed:
         from nutree.typed_tree import TypedTree
         tree = TypedTree("locked")
@@ -420,7 +439,7 @@ def build_tree(typed=False):
 
 
 def run_trace(op, *, schedule=None, nested=True, nested_op="to_dict_list", writers=("w1",), readers=("r1",), tmpdir="/tmp",
-              trace_id=0, reader_ops=None, typed=False, rebuild=False):
+              trace_id=0, reader_ops=None, typed=False, rebuild=False, shared=False):
     """One execution with real threads.  Returns the trace record for TraceLock."""
     rec = Recorder()
     silent = set()
@@ -433,11 +452,14 @@ def run_trace(op, *, schedule=None, nested=True, nested_op="to_dict_list", write
     sched = Scheduler(rec, schedule, silent)
     with _install_factory(sched):
         return _run_trace(sched, rec, rops, op, schedule=schedule, nested=nested, nested_op=nested_op, writers=writers,
-                          readers=readers, tmpdir=tmpdir, trace_id=trace_id, typed=typed, rebuild=rebuild)
+                          readers=readers, tmpdir=tmpdir, trace_id=trace_id, typed=typed, rebuild=rebuild, shared=shared)
 
 
-def _run_trace(sched, rec, rops, op, *, schedule, nested, nested_op, writers, readers, tmpdir, trace_id, typed, rebuild):
-    tree = build_tree(typed)
+def _run_trace(sched, rec, rops, op, *, schedule, nested, nested_op, writers, readers, tmpdir, trace_id, typed, rebuild,
+               shared=False):
+    tree = build_tree(typed, shared)
+    if shared:
+        tree._forest_lock = TracingLock(threading.RLock(), sched, lk=99)
     if tree._lock is not None and not isinstance(tree._lock, TracingLock):
         tree._lock = TracingLock(tree._lock, sched)    # a lock object the factory did not see being made
     _same_target.node = tree.children[0].children[0]
@@ -501,7 +523,7 @@ def _run_trace(sched, rec, rops, op, *, schedule, nested, nested_op, writers, re
                 rec.log(name, "snap", shows)
             except ExpectedFailure:
                 pass  # no snapshot; the protocol (acquire ... release) must have been completed nevertheless
-            lk = tree._lock
+            lk = tree._forest_lock if shared else tree._lock
             if isinstance(lk, TracingLock) and lk.owner == threading.get_ident() and lk.depth > 0:
                 sched.leak = name     # the operation returned, the lock is still held (reported at "end")
             sched.step("end")
@@ -526,7 +548,7 @@ def _run_trace(sched, rec, rops, op, *, schedule, nested, nested_op, writers, re
             raise MachineryTimeout(f"thread did not finish (op={op}, schedule={schedule})")
     if errors:
         raise errors[0]
-    return {"id": trace_id, "op": ("typed:" if typed else "") + (f"rebuild-{rebuild}:" if rebuild else "") + "+".join(sorted(set(rops.values()))) + ("/nested:" + nested_op if nested else ""),
+    return {"id": trace_id, "op": ("typed:" if typed else "") + ("shared-lock-subclass:" if shared else "") + (f"rebuild-{rebuild}:" if rebuild else "") + "+".join(sorted(set(rops.values()))) + ("/nested:" + nested_op if nested else ""),
             "events": rec.events, "forced": schedule is not None}
 
 
